@@ -129,7 +129,11 @@ def run(ctx):
             ham = fqe.get_restricted_hamiltonian((h1, h2), e_0=0)
             terms = U.restricted_terms([h1, h2], norb)
             try:
-                got = complex(ket.expectationValue(ham) if same_bra else ket.expectationValue(ham, brawfn=bra))
+                if case % 2 == 0:
+                    got = complex(fqe.expectationValue(ket, ham) if same_bra else fqe.expectationValue(ket, ham, bra))
+                    ctx.count("expectation-via-module-wrapper")
+                else:
+                    got = complex(ket.expectationValue(ham) if same_bra else ket.expectationValue(ham, brawfn=bra))
                 e = parse_c(d.ask(f"expect {norb} {fmt_vec(eb)} {fmt_vec(ek)} {fmt_op(terms)}"))
                 ctx.case(("expect", case))
                 ctx.count("expectation")
